@@ -6,6 +6,7 @@ import (
 	"go/ast"
 	"go/token"
 	"go/types"
+	"strconv"
 	"strings"
 )
 
@@ -811,7 +812,73 @@ func ruleR04_5(c *Check) {
 	r.Check(ranged, np, "overlay entries collected from pendingWrites", nil, "newPendingWritesIterator does not range over txn.pendingWrites")
 }
 
+// R04.6: every accepted write is recorded in the overlay, and stays there.
+func ruleR04_6(c *Check) {
+	w := c.W
+	r := c.Rule("R04.6", "E1+E3", 3, "every accepted write is recorded: each success exit of Txn.modify is preceded by the store pendingWrites[string(e.Key)] = e of the entry being written (a delete is an entry like any other and shadows the snapshot); no key is removed from pendingWrites (builtin delete) and no element is stored into it outside Txn.modify",
+		"a write that modify accepts but does not record, or a pending entry that is removed again, lets Get and iterators of the same transaction fall through to the snapshot: a key deleted after being set in the transaction shows its committed value")
+	f := w.F("badger.Txn.modify")
+	pw := w.Field("badger.Txn.pendingWrites")
+	keyF := w.Field("badger.Entry.Key")
+	var param *types.Var
+	if ps := f.Obj.Type().(*types.Signature).Params(); ps.Len() == 1 {
+		param = ps.At(0)
+	}
+	if param == nil {
+		panic(anchorError{"Txn.modify(e *Entry)"})
+	}
+	isParam := func(e ast.Expr) bool {
+		id, ok := unparen(e).(*ast.Ident)
+		return ok && w.Use(id) == types.Object(param)
+	}
+	rec := selPred("pendingWrites[string(e.Key)] = e", func(w *World, fn *Fn, n ast.Node) bool {
+		as, ok := n.(*ast.AssignStmt)
+		if !ok || len(as.Lhs) != 1 || len(as.Rhs) != 1 || !isParam(as.Rhs[0]) {
+			return false
+		}
+		ix, ok := unparen(as.Lhs[0]).(*ast.IndexExpr)
+		if !ok || w.fieldOf(ix.X) != pw {
+			return false
+		}
+		// the index is the entry's own key (string conversion of e.Key, possibly through a local)
+		idx := w.Origin(fn, ix.Index)
+		if call, ok := unparen(idx).(*ast.CallExpr); ok && len(call.Args) == 1 {
+			idx = call.Args[0]
+		}
+		if w.fieldOf(idx) != keyF {
+			return false
+		}
+		if se, ok := unparen(idx).(*ast.SelectorExpr); ok {
+			return isParam(se.X)
+		}
+		return false
+	})
+	n := r.ExitsNeed(f, "entry recorded in pendingWrites", rec, 0, exitSuccess)
+	r.Exists(n >= 1 && len(f.Sites(rec)) >= 1, f, "recording store", nil, "Txn.modify has no store pendingWrites[string(e.Key)] = e")
+	// element stores and removals elsewhere
+	for _, o := range allStores(w, pw) {
+		as, ok := o.Node.(*ast.AssignStmt)
+		if !ok {
+			continue
+		}
+		for _, l := range as.Lhs {
+			if ix, ok := unparen(l).(*ast.IndexExpr); ok && w.fieldOf(ix.X) == pw {
+				r.Check(o.SiteFn == f, o.SiteFn, "pendingWrites elements stored only by Txn.modify", o.Node, "an element of pendingWrites is stored outside Txn.modify (no validation, no size accounting, no conflict key)")
+			}
+		}
+	}
+	removals := allSites(w, "badger", selPred("delete(pendingWrites, …)", func(w *World, fn *Fn, n ast.Node) bool {
+		call, ok := n.(*ast.CallExpr)
+		return ok && isBuiltin(w, call, "delete") && len(call.Args) == 2 && w.fieldOf(w.Origin(fn, call.Args[0])) == pw
+	}))
+	for _, o := range removals {
+		r.Check(false, o.SiteFn, "no pending write is removed", o.Node, "a key is removed from pendingWrites: reads of this transaction fall through to the snapshot for it")
+	}
+	r.Check(true, f, "removals of pending writes in package badger: "+strconv.Itoa(len(removals)), nil, "")
+}
+
 func propC04(c *Check) {
+	ruleR04_6(c)
 	ruleR04_5(c)
 	ruleR04_4(c)
 	ruleR04_1(c)
